@@ -390,6 +390,9 @@ func (in *Interp) assignList(st *State, lhs, rhs []ast.Expr, tok token.Token) []
 		if len(rhs) == 1 && len(lhs) > 1 {
 			if vals[0].K == vTuple && len(vals[0].Tup) == len(lhs) {
 				vals = vals[0].Tup
+			} else if _, isIdx := stripParens(rhs[0]).(*ast.IndexExpr); isIdx && len(lhs) == 2 {
+				// comma-ok map lookup: the second value names the lookup
+				vals = []Value{vals[0], tagV("ok", vals[0].String())}
 			} else {
 				vals = make([]Value, len(lhs))
 			}
